@@ -1122,6 +1122,7 @@ def translate_all(src):
                "    (rrsAttach TZID date.2) >>= fun tzinfo =>\n"
                "    .ok (date.1, tzinfo))\n" % (f2.iter.args[0].value, lean_char(f2.iter.args[0].value)))
     fps["_rrulestr._parse_date_value"] = fingerprint([pdv])
+    fps.pop("_rrulestr._parse_date_value[parms]", None); fps.pop("_rrulestr._parse_date_value[attach]", None)    # the whole method now
     text, fp = translate_rrule_str(src)
     out.append(text); fps.update(fp)
     text, fp = translate_rule_parser(src)
